@@ -322,6 +322,12 @@ def asan_pass(chk, model, scen, seen_sigs):
                 frames = re.findall(r'#\d+ 0x[0-9a-f]+ in (\S+)', err)
                 lib = [f for f in frames if not f.startswith('__') and f not in ('ck_free', 'ck_realloc', 'retire')][:1]
                 sig = 'asan:%s@%s' % (kind.group(1) if kind else '?', lib[0] if lib else '?')
+                if not kind or kind.group(1) not in ('use-after-poison', 'heap-use-after-free', 'double-free',
+                                                     'attempting', 'alloc-dealloc-mismatch', 'bad-free'):
+                    # another kind of memory error (e.g. an out-of-bounds access): not what C17 states; recorded, not judged
+                    chk.notes.append('ASan report outside the property (not judged): %s; script: %s' % (sig, ' | '.join(short(lines))[:400]))
+                    chk.dist('asan_other', sig)
+                    continue
                 if sig not in seen_sigs:
                     seen_sigs[sig] = None
                     chk.finding(sig, dict(script=lines, report=err[:3000]),
